@@ -352,6 +352,31 @@ theorem panicking_function_is_error (oob : IntKind → Num → Int) (sig : Sig) 
 example : run shape (fun _ _ => 0) (.fn ⟨[.f64], false, [.f64]⟩ (fun _ => .panic)) [.f64 (.fin 1 0)]
     = .done (.one .nil) (some .recovered) := by decide
 
+/-! ## Plugin functions -/
+
+/-- Third side obligation (stdlib/stdlib.go): every function object `AddStdlibPluginFunc` registers is
+    an `ECALFunctionAdapter` around a `func(...interface{}) (interface{}, error)` closure. -/
+theorem plugin_goes_through_bridge : Ecal.Gen.C19.pluginViaAdapter = true := by decide
+
+/-- **Plugin functions are total too**: whatever a plugin's `Run` does — return, return an error,
+    panic on a missing argument / NULL / wrong kind — and whatever the arguments, the call returns. -/
+theorem plugin_total (oob : IntKind → Num → Int) (body : List Val → BodyOut) (args : List Val) :
+    ∀ r, runPlugin Ecal.Gen.C19.pluginViaAdapter shape oob body args = r → r ≠ .escaped := by
+  intro r h
+  rw [plugin_goes_through_bridge] at h
+  exact bridge_total oob (.fn pluginSig body) args r h
+
+/-- A panicking plugin body gives `(nil, error)`. -/
+theorem plugin_panic_is_error (oob : IntKind → Num → Int) (body : List Val → BodyOut) (args : List Val)
+    (hp : ∀ l, body l = .panic) :
+    IsBridgeError (runPlugin Ecal.Gen.C19.pluginViaAdapter shape oob body args) := by
+  rw [plugin_goes_through_bridge]
+  exact panicking_function_is_error oob pluginSig args body hp
+
+/-- Registered directly (not through the adapter) a panicking plugin takes the interpreter down:
+    the model can express the failure the obligation excludes. -/
+example : runPlugin false shape (fun _ _ => 0) (fun _ => .panic) [] = .escaped := by decide
+
 /-- A value that is of the right kind everywhere does reach the function (non-vacuity of the
     error theorems: the bridge does not answer everything with an error). -/
 example : run shape (fun _ _ => 0)
